@@ -192,6 +192,48 @@ func Scenarios2() []History {
 	)
 	add("total-lowered-to-the-batches-had", smallParams(), nil, ops...)
 
+	// re-entrancy: the owning module pauses or kills its context from inside the callback - the response
+	// callback of a batch answered in full, the response callback at a batch's expiry, and the state callback
+	// that reports the consumer out of funds
+	ops = registry(map[string]int64{"p1": 5, "p2": 3})
+	mod := func(signer string, thr int64, rr, rs string) Ev {
+		return Ev{Name: "ModCreate", Signer: signer, Svc: "s1", Provs: []string{"p1", "p2"}, Cap: 10, Timeout: 2, Rep: true,
+			Freq: 3, Total: 4, Thr: thr, RResp: rr, RState: rs}
+	}
+	ops = append(ops,
+		mod("c1", 1, "kill", ""),  // 1: killed when its first batch is answered in full
+		mod("c1", 2, "pause", ""), // 2: paused when its first batch expires, half answered
+		mod("c1", 1, "kill", ""),  // 3: killed when its first batch expires
+		mod("c2", 1, "", "kill"),  // 4: killed when c2 cannot pay the second batch
+		mod("c2", 1, "pause", "pause"),
+		eb(1),
+		Ev{Name: "Respond", Signer: "p1", Rid: rid(1, 1, 1, 0), Kind: "valid"},
+		Ev{Name: "Respond", Signer: "p2", Rid: rid(1, 1, 1, 1), Kind: "valid"},
+		Ev{Name: "Obs"},
+		Ev{Name: "Respond", Signer: "p1", Rid: rid(2, 1, 1, 0), Kind: "valid"},
+		Ev{Name: "Respond", Signer: "p1", Rid: rid(5, 1, 1, 0), Kind: "valid"},
+		Ev{Name: "Respond", Signer: "p2", Rid: rid(5, 1, 1, 1), Kind: "bad"},
+		eb(1), eb(1),
+		Ev{Name: "Obs"},
+		Ev{Name: "ModStart", Signer: "c1", ID: 2},
+		Ev{Name: "ModStart", Signer: "c1", ID: 1},
+		Ev{Name: "ModStart", Signer: "c2", ID: 5},
+		// c2 is emptied: its contexts cannot pay their second batches (state callbacks: 4 is killed; 5 is paused already)
+		Ev{Name: "BankSend", Signer: "c2", To: "o2", Amount: 32},
+		Ev{Name: "BankSend", Signer: "c2", To: "o2", Amount: 16},
+		Ev{Name: "BankSend", Signer: "c2", To: "o2", Amount: 8},
+		Ev{Name: "BankSend", Signer: "c2", To: "o2", Amount: 4},
+		Ev{Name: "BankSend", Signer: "c2", To: "o2", Amount: 2},
+		Ev{Name: "BankSend", Signer: "c2", To: "o2", Amount: 1},
+		eb(1),
+		Ev{Name: "Obs"},
+		Ev{Name: "BankSend", Signer: "o2", To: "c2", Amount: 40},
+		Ev{Name: "ModStart", Signer: "c2", ID: 4}, // killed: stays so
+		Ev{Name: "ModStart", Signer: "c2", ID: 5},
+		eb(1), eb(1), eb(1), eb(1),
+	)
+	add("module-reacts-inside-its-callbacks", smallParams(), map[string]int64{"c1": 200, "c2": 40}, ops...)
+
 	return hs
 }
 
